@@ -145,3 +145,10 @@ lemma('kfac.assignment:KAISAAssignment.partition_grad_workers', 'window_unique',
       hyps=['s > 0', 'lo <= a + w1 * s', 'a + w1 * s < lo + s', 'lo <= a + w2 * s', 'a + w2 * s < lo + s'],
       goal='w1 == w2',
       text='a window no longer than the stride contains at most one member of a strided range')
+
+# the communication groups handed to the layers: the handle stored next to the rank set of the layer's group
+for _m, _f in (('grad_worker_group', '_grad_worker_groups'), ('grad_receiver_group', '_grad_receiver_groups')):
+    contract(f'kfac.assignment:KAISAAssignment.{_m}', props=['C06', 'C13', 'C03'], result=KRef('ProcessGroup'),
+             params={'layer': KStr}, requires=[INV, HAS_LAYER],
+             ensures=[('handle_of_the_layers_group', f'result is self.{_f}[layer].group')],
+             modifies=[], theories=['strided_ranges', 'divmod_product'])
